@@ -41,6 +41,20 @@ Proof. split; [exact link_no_constant_reseed|split; [exact link_fresh_run_seeds_
 Print Assumptions C09_no_const_on_paths.
 
 (** the pinned tree's clustering fit: a literal 42 reaches np.random.seed on the fit path *)
+(** a resumed seeded run continues the stream of the run that wrote the checkpoint (the code records and restores the generator state:
+    link_resume_continues_the_stream); seeding again on load -- the pinned rule once fresh runs are seeded -- replays it *)
+Theorem C09_resume_continues_stream : forall G (seed : Z -> G) (advance : G -> nat -> G),
+  (forall g a b, advance (advance g a) b = advance g (a + b)) ->
+  forall s k1 k2 g0,
+  advance (exec G seed advance [SeedUser s; Draw k1] g0) k2 = exec G seed advance [SeedUser s; Draw (k1 + k2)] g0.
+Proof. intros G seed advance H s k1 k2 g0. now apply restore_continues. Qed.
+Print Assumptions C09_resume_continues_stream.
+Theorem C09_reseed_on_resume_replays : forall G (seed : Z -> G) (advance : G -> nat -> G) s k1 k2 g0,
+  exec G seed advance [SeedUser s; Draw k1; SeedUser s; Draw k2] g0 = exec G seed advance [SeedUser s; Draw k2] g0.
+Proof. intros. apply reseed_on_resume_replays. Qed.
+Theorem C09_code_records_and_restores_the_stream : Gen.Seeding.seeded_checkpoint_records_the_stream_and_load_restores_it = true.
+Proof. exact link_resume_continues_the_stream. Qed.
+
 Example C09_const_reseed_refuted :
   site_resets_to_constant (mkSite 0 (AttributeSetFromLiteral 42) true true) = true
   /\ forall (seed : Z -> nat) adv, exec nat seed adv [Draw 3; SeedConst 42; Draw 1] 1 = exec nat seed adv [Draw 3; SeedConst 42; Draw 1] 2.
